@@ -32,8 +32,9 @@ use core::marker::PhantomData;
 use crate::error::Error;
 use crate::utils::init;
 
-use super::{EitherIter, FromTLV, TLVElement, TLVSequenceIter, TLVTag, TLVWrite, ToTLV, TLV};
 use crate::tlv::TLVSequence;
+
+use super::{EitherIter, FromTLV, TLVElement, TLVSequenceIter, TLVTag, TLVWrite, ToTLV, TLV};
 
 /// A type-state that indicates that the container can be any type of container (array, list or struct).
 pub type AnyContainer = ();
@@ -92,13 +93,12 @@ where
 
     /// Returns an iterator over the elements of the container.
     pub fn iter(&self) -> TLVContainerIter<'a, T> {
-        if self.element.is_empty() {
-            // An empty element stands for an absent (optional) container,
-            // as accepted by the `new` constructors: it has no elements
-            return TLVContainerIter::new(TLVSequence(&[]).iter());
-        }
+        // `new` and `from_tlv` accept the empty element (a field which is absent from its structure)
+        // and `new_unchecked` accepts anything, so the element might not be a container.
+        // Iterating it must not panic on data coming from the wire: the iterator yields one error.
+        const MALFORMED: TLVSequence<'static> = TLVSequence(&[0xff]);
 
-        TLVContainerIter::new(unwrap!(self.element.container()).iter())
+        TLVContainerIter::new(self.element.container().unwrap_or(MALFORMED).iter())
     }
 }
 
